@@ -137,6 +137,28 @@ class SymBool:
 
     __hash__ = None
 
+    # Python's bool is an int: `count + flag`, `sum(flags)` - the flag enters arithmetic as 0 / 1
+    def _as_number(self):
+        return SymReal(z3.If(self.t, z3.RealVal(1), z3.RealVal(0)))
+
+    def __add__(self, o):
+        return self._as_number() + o
+
+    def __radd__(self, o):
+        return o + self._as_number()
+
+    def __sub__(self, o):
+        return self._as_number() - o
+
+    def __rsub__(self, o):
+        return o - self._as_number()
+
+    def __mul__(self, o):
+        return self._as_number() * o
+
+    def __rmul__(self, o):
+        return o * self._as_number()
+
     def __repr__(self):
         return f"SymBool({self.t})"
 
